@@ -98,6 +98,47 @@ def gen_history_case(ctx):
     return c
 
 
+def gen_huge_case(ctx):
+    """Data beyond 64 KiB (and beyond 8 KiB) with whole-byte patterns planted across the multiples of 8192 and 65536 BYTES counted
+    from the start of the search, or uniform data of a few thousand bits searched for a piece of itself / for all of itself."""
+    rng = ctx.rng
+    r = rng.random()
+    if r < 0.35:
+        # special shapes: one repeated bit (a few exceptions), and the pattern is a run of that bit, or the whole data
+        L = rng.choice([4096, 4097, 4104, 5000, 8192, 12000])
+        bit = rng.choice('01')
+        d = [bit] * L
+        for _ in range(rng.choice([0, 0, 1, 2])):
+            d[rng.randrange(L)] = '1' if bit == '0' else '0'
+        d = ''.join(d)
+        p = rng.choice([bit, bit * 8, bit * 16, bit * 9, d, d[:-1], d[1:], bit * (L - 8)])
+        return {'cls': rng.choice(util.CLASS_NAMES), 'data': d, 'pat': ['Bits', p], 'start': rng.choice([None, None, 0, 8]), 'end': rng.choice([None, None, L, L - 8]),
+                'count': rng.choice([None, 1, 3]), 'ba': rng.choice([None, False, True]), 'oba': False, 'cutbits': rng.choice([4096, 1000]), 'cntval': int(bit), 'new': '0'}
+    block = rng.choice([8192, 65536])                      # bytes
+    nblocks = rng.choice([1, 1, 2])
+    nbytes = block * nblocks + rng.choice([1, 2, 3, 17, 300])
+    L = 8 * nbytes + rng.choice([0, 0, 0, 3])
+    pl = 8 * rng.choice([2, 2, 3, 4])
+    p = '1' + rb(rng, pl - 2) + '1'
+    if rng.random() < 0.3:
+        p = rng.choice(['0100000001111111', '1010101110101011', '00001101' + '00001010'])     # 0x017f-like, periodic, CR LF
+        pl = len(p)
+    st = rng.choice([None, None, 0, 8, 24, 8 * 100])
+    s0 = st or 0
+    d = ['0'] * L
+    spots = []
+    for k in range(1, nblocks + 1):
+        edge = s0 + 8 * block * k
+        spots += [edge - 8 * j for j in range(0, pl // 8 + 1)] + [edge + 8, edge - pl - 8]
+    spots += [s0, s0 + 8 * 5, L - L % 8 - pl]
+    spots = [x for x in spots if 0 <= x <= L - pl]
+    for pos in rng.sample(spots, min(len(spots), rng.choice([1, 2, 3]))):
+        d[pos:pos + pl] = list(p)
+    return {'cls': rng.choice(util.CLASS_NAMES), 'data': ''.join(d), 'pat': util.operand_spec(rng, p, ['Bits', 'BitArray', 'str', 'bytes']),
+            'start': st, 'end': rng.choice([None, None, None, L - 8]), 'count': rng.choice([None, None, 2]),
+            'ba': rng.choice([True, True, None, False]), 'oba': rng.choice([False, True]), 'cutbits': 8 * block, 'cntval': 1, 'new': rb(rng, rng.choice([0, 8, 16]))}
+
+
 def gen_long_case(ctx):
     """Long, almost empty data with the pattern planted next to the places where a chunked or byte-windowed search
     changes regime: multiples of 8192 bits counted from either end of the data or of the window, byte boundaries."""
@@ -324,6 +365,8 @@ def run(ctx):
     n = ctx.scale(36000, 600000)
     for i in range(n):
         c = gen_long_case(ctx) if i % 12 == 5 else gen_history_case(ctx) if i % 6 == 1 else gen_case(ctx)
+        if i % (900 if ctx.quick else 3000) == 17:
+            c = gen_huge_case(ctx)
         ctx.run_case(judge, c)
         if i % 997 == 0:
             ctx.sample(short(c))
